@@ -73,26 +73,40 @@ func (m *Mutex) Unlock() {
 //go:norace
 func (m *Mutex) Held() bool { return m.held }
 
-// RWMutex mirrors sync.RWMutex (writer preference is not modelled, which admits a superset of the
-// runtime's critical-section orders).
+// RWMutex mirrors sync.RWMutex including the runtime's writer preference: once a writer has called
+// Lock (it holds the internal writer mutex and has announced itself), new readers block until that
+// writer has unlocked, while the writer waits for the readers already inside. A recursive read lock
+// taken while a writer is pending therefore deadlocks, as it does under the real runtime. A reader
+// parked behind a writer does nothing observable until it gets the lock, so treating it as arriving
+// after the writer's Unlock (it may be overtaken by the next writer) admits exactly the runtime's
+// observable behaviours.
 type RWMutex struct {
-	w       bool
+	pend    bool // a writer holds the writer mutex: pending or active
+	w       bool // the writer is inside
 	readers int
 	rm      realRWMutex
 }
 
-type rwCanW RWMutex
+type rwCanAnnounce RWMutex
+type rwDrained RWMutex
 type rwCanR RWMutex
 
 //go:norace
-func (m *rwCanW) Enabled() bool { return !m.w && m.readers == 0 }
+func (m *rwCanAnnounce) Enabled() bool { return !m.pend }
 
 //go:norace
-func (m *rwCanR) Enabled() bool { return !m.w }
+func (m *rwDrained) Enabled() bool { return m.readers == 0 }
+
+//go:norace
+func (m *rwCanR) Enabled() bool { return !m.pend }
 
 //go:norace
 func (m *RWMutex) Lock() {
-	vrt.Point("rwmutex.lock", (*rwCanW)(m), m)
+	vrt.Point("rwmutex.lock", (*rwCanAnnounce)(m), m)
+	m.pend = true
+	if m.readers != 0 {
+		vrt.Point("rwmutex.lock.drain", (*rwDrained)(m), m)
+	}
 	m.w = true
 	m.rm.lock()
 }
@@ -100,10 +114,10 @@ func (m *RWMutex) Lock() {
 //go:norace
 func (m *RWMutex) TryLock() bool {
 	vrt.Point("rwmutex.trylock", nil, m)
-	if m.w || m.readers != 0 {
+	if m.pend || m.readers != 0 {
 		return false
 	}
-	m.w = true
+	m.pend, m.w = true, true
 	m.rm.lock()
 	return true
 }
@@ -117,7 +131,7 @@ func (m *RWMutex) Unlock() {
 		panic("sync: Unlock of unlocked RWMutex")
 	}
 	m.rm.unlock()
-	m.w = false
+	m.w, m.pend = false, false
 	vrt.Touch(m)
 }
 
@@ -131,7 +145,7 @@ func (m *RWMutex) RLock() {
 //go:norace
 func (m *RWMutex) TryRLock() bool {
 	vrt.Point("rwmutex.tryrlock", nil, m)
-	if m.w {
+	if m.pend {
 		return false
 	}
 	m.readers++
